@@ -225,6 +225,29 @@ def run(rep, tier, seed):
     evs = [e for chunk in parallel(w_plans, range(len(plans))) for e in chunk]
     nseed = 120 if tier == "quick" else 2500
     evs += [e for chunk in parallel(w_seeded, [seed * 100003 + i for i in range(nseed)]) for e in chunk]
+    # very deep trees: a chain of nested sections with offenders planted at the bottom (the quantifier: arbitrary depths)
+    import sys as _sys
+    from metapype.eml import validate as _v, references as _r, evaluate as _e  # noqa: F401 - imported BEFORE the limit below is raised (import-time constants)
+    for depth in ([120, 300, 600] if tier == "quick" else [120, 300, 600, 800]):
+        for strict in (False, True):
+            Node.store.clear()
+            root = Node("abstract")
+            cur = root
+            for _ in range(depth):
+                nxt = Node("section")
+                cur.add_child(nxt)
+                cur = nxt
+            cur.add_child(Node("para", content="bottom"))
+            cur.add_child(Node("zzUnknownAtTheBottom"))
+            mis = Node("dataset")
+            mis.add_child(Node("title", content="misplaced"))
+            cur.add_child(mis)
+            old = _sys.getrecursionlimit()
+            _sys.setrecursionlimit(max(old, 20000))       # the harness's own walks (pi, projections) are recursive too
+            try:
+                evs.append(record_prune(root, strict, {"base": "very deep chain", "depth": depth, "strict": strict}))
+            finally:
+                _sys.setrecursionlimit(old)
     strip = lambda e: {k: v for k, v in e.items() if k != "desc"}  # noqa: E731
     rejects, rr = judge_traces([strip(e) for e in evs], PID, module="TraceEml", cfg="TraceValidate.cfg", label="prune", lib=wd, timeout=3000)
     rep.cov["states"] += rr.distinct or 0
